@@ -388,10 +388,6 @@ def run_check(P, tier, seed, replay=None):
     if hasattr(P, 'py_spec_fail'):   # optional extra search oracle evaluated on implementation outputs (never the only judge)
         extra = [i for i, (c, o) in enumerate(zip(cases, outs)) if i not in driver_errors and P.py_spec_fail(c, o)]
         specfail = sorted(set(specfail) | set(extra))
-    if disagree:
-        broken.append({'kind': 'correspondence', 'detail': f'{len(disagree)} of {len(cases)} cases: implementation and model differ',
-                       'first': {'input': cases[disagree[0]], 'impl': outs[disagree[0]]}})
-
     # ---- classify failing inputs against known findings
     known = [k for k in load_known() if k['property'] == pid and k['status'] == 'known']
     violations, known_hits = [], {}
@@ -402,6 +398,12 @@ def run_check(P, tier, seed, replay=None):
             known_hits.setdefault(hit['id'], []).append(i)
         else:
             violations.append(i)
+    # a model/implementation difference on an input that fails the specification inside a known-finding class is that finding
+    excused = {i for v in known_hits.values() for i in v}
+    disagree_unexcused = [i for i in disagree if i not in excused]
+    if disagree_unexcused:
+        broken.append({'kind': 'correspondence', 'detail': f'{len(disagree_unexcused)} of {len(cases)} cases: implementation and model differ',
+                       'first': {'input': cases[disagree_unexcused[0]], 'impl': outs[disagree_unexcused[0]]}})
     lines = []
     for k in known:
         if k['id'] in known_hits:
